@@ -138,8 +138,7 @@ def classify(r, unit, tags):
     sl = r.get('sourceLocation', {}) or {}
     f, line, fn = sl.get('file', ''), int(sl.get('line', 0) or 0), sl.get('function', '')
     ob = {'id': pid, 'unit': unit['name'], 'status': r['status'], 'desc': desc, 'file': f, 'line': line, 'fn': fn}
-    src = os.path.basename(unit['src'])
-    in_contract_src = os.path.basename(f) == src
+    in_contract_src = os.path.dirname(os.path.abspath(f)) == os.path.join(ROOT, 'contracts') if f and not f.startswith('<') else False
     if 'VACUITY_CANARY' in desc:
         ob['cls'] = 'vacuity'
         return ob
@@ -147,7 +146,7 @@ def classify(r, unit, tags):
         return None           # well-defined integer narrowing / sign conversion: pinned by postconditions instead
     if 'NaN on' in desc:
         return None
-    tagged = tags.get(line) if in_contract_src else None
+    tagged = tags.get((os.path.basename(f), line)) if in_contract_src else None
     if '.postcondition.' in pid or '.precondition.' in pid or (in_contract_src and '.assertion.' in pid) or \
             (in_contract_src and fn.startswith('contract_')):
         ob['cls'] = 'post' if '.precondition.' not in pid else 'pre'
@@ -299,7 +298,11 @@ def run_unit(u, b, keep=None, trace=False, use_cache=True):
                 os.replace(tmp, cpath)
             data = {'data': data, 'solver_s': dt}
         res['solver_s'] = data['solver_s']
-        tags = load_tags(os.path.join(ROOT, u['src']))
+        tags = {}
+        for cf in sorted(os.listdir(os.path.join(ROOT, 'contracts'))):
+            if cf.endswith(('.c', '.h')):
+                for ln, t in load_tags(os.path.join(ROOT, 'contracts', cf)).items():
+                    tags[(cf, ln)] = t
         results = None
         for e in data['data']:
             if e.get('messageType') == 'ERROR':
@@ -497,7 +500,8 @@ def check_property(pid, tier, args):
             if rc == 0:
                 print('UNDECIDED %s: no obligation discharged' % pid)
                 rc = 2
-        json.dump(ev, open(evidence_path, 'w'), indent=1)
+        if not os.environ.get('VF_NO_EVIDENCE'):   # set while running checks against seeded changes
+            json.dump(ev, open(evidence_path, 'w'), indent=1)
         print('%s tier=%s units=%d obligations=%d discharged=%d known=%d bounded=%d violations=%d wall=%.1fs -> %s' % (
             pid, tier, len(units), n_ob, n_dis, len(known_lines), len(bounded), len(violations), time.time() - t0,
             {0: 'HOLDS', 1: 'VIOLATED', 2: 'UNDECIDED'}[rc]))
